@@ -212,6 +212,39 @@ def replay_path(prop, ob):
     return os.path.join(d, '%s_%s.json' % (safe, h))
 
 
+def _guard_rule_functions():
+    """Wrap every rule function r<pp>_<n>(ctx) of every rule module: when the statement form a rule is anchored in is not
+    recognised (AnchorMissing, including an instance floor that is not reached) the rule gives no verdict -- one undecided
+    obligation -- and the other rules still run.  A module / class / function that no longer exists (ConstructMissing) still
+    aborts the analysis with exit 2."""
+    import glob
+    import importlib
+    import functools
+    from .program import ConstructMissing
+    for path in sorted(glob.glob(os.path.join(VERIF, 'rules', 'C*.py'))):
+        m = importlib.import_module('rules.' + os.path.basename(path)[:-3])
+        for name in dir(m):
+            f = getattr(m, name)
+            if not (re.match(r'^r\d+(_\d+)?$', name) and callable(f)) or getattr(f, '_guarded', False):
+                continue
+
+            def make(fn, fname, modname):
+                @functools.wraps(fn)
+                def wrapped(ctx, *a, **kw):
+                    try:
+                        return fn(ctx, *a, **kw)
+                    except ConstructMissing:
+                        raise
+                    except AnchorMissing as e:
+                        rule = kw.get('rule') or ('R%s.%s' % (fname[1:3], fname.split('_')[1] if '_' in fname else '1'))
+                        ctx.undecided(rule, '%s.%s' % (modname, fname), 'anchor of the rule', None,
+                                      'statement form not recognised, the rule gives no verdict here: %s' % e, where='-')
+                        return None
+                wrapped._guarded = True
+                return wrapped
+            setattr(m, name, make(f, name, m.__name__))
+
+
 def run_property(prop, tier='quick', repo=None, write=True, out=sys.stdout, prog=None, extra_coverage=None):
     """Run all rules of one property.  Returns (exit_code, ctx)."""
     t0 = time.time()
@@ -227,6 +260,7 @@ def run_property(prop, tier='quick', repo=None, write=True, out=sys.stdout, prog
         if prog is None:
             prog = Program(repo)
         ctx = Ctx(prop, prog, tier)
+        _guard_rule_functions()
         mod.run(ctx)
         from . import refdiff
         refdiff.run(ctx, 'R%s.0' % prop[1:])
